@@ -127,6 +127,21 @@ class CustomProp:
 Symbol = Union['ModuleInfo', 'ClassInfo', FuncInfo, Const, External, DescriptorDecl, CustomProp]
 
 
+def _decorator_name(d: ast.AST, table: dict) -> str:
+    """the decorator as written, or -- for a plain name imported under an alias (`from .registry import token_model as _token_model`) --
+    the name it was imported from"""
+    if isinstance(d, ast.Name):
+        t = table.get(d.id)
+        real = getattr(t, 'name', None) if isinstance(t, FuncInfo) else getattr(t, 'qualname', None) if isinstance(t, External) else None
+        if isinstance(t, FuncInfo) and real and real != d.id:
+            return real
+        if isinstance(t, External) and real:
+            last = real.rstrip('?').rsplit('.', 1)[-1]
+            if last and last != d.id:
+                return last
+    return norm(d)
+
+
 @dataclasses.dataclass(eq=False)
 class ClassInfo:
     name: str
@@ -358,7 +373,7 @@ class Program:
                 self._import_from(m, st, table)
             elif isinstance(st, ast.ClassDef):
                 ci = ClassInfo(st.name, st, m, base_exprs=list(st.bases))
-                ci.decorators = [norm(d) for d in st.decorator_list]
+                ci.decorators = [_decorator_name(d, table) for d in st.decorator_list]
                 table[st.name] = ci
                 m.classes.append(ci)
                 if cls is not None:
